@@ -165,9 +165,9 @@ def carry_pool(run, tools, thorough):
 
     for period in range(1, 17):
         tail = bytes(ALPHA[i % period] for i in range(700 if period % 2 else 1500))
-        for hs in ((40, 1000) if not thorough else (0, 40, 300, 1000, 5000)):
+        for hs in ((40, 1000) if not thorough else (40, 300, 1000, 5000)):
             head = prng_bytes(hs, 100 + period + hs)
-            for q in (rng.sample(quals, 2) if not thorough else quals[::2] + [rng.choice(quals)]):
+            for q in (rng.sample(quals, 2) if not thorough else rng.sample(quals, 4)):
                 lg = rng.choice([16, 18, 22])
                 fl = rng.choice(["c", "c", "cm", "a"])
                 if hs:
@@ -212,7 +212,7 @@ def carry_lists(run, pool, prevs_src):
     """every state-carry member in non-first position behind members of several lengths (and, when it is
     only appendable, in first position in front of a catable one)"""
     rng = run.rng
-    prevs = sorted([p for p in prevs_src if not is_large_format(p["bytes"]) and p["lgwin"] == 24 and len(p["bytes"]) >= 5 and not p.get("carry")],
+    prevs = sorted([p for p in prevs_src if not is_large_format(p["bytes"]) and p["lgwin"] == 24 and 5 <= len(p["bytes"]) <= 20000 and not p.get("carry")],
                    key=lambda p: len(p["bytes"]))
     cats = [p for p in prevs_src if p["catable"] and len(p["bytes"]) >= 5 and (p["lgwin"] or 99) <= 16 and not is_large_format(p["bytes"])]
     lists = []
@@ -374,8 +374,14 @@ def check(run):
         elif total <= 100000:
             jobs.append((li, "blocks", mk_run(bs, [[4096] * (len(b) // 4096 + 1) for b in bs], caps=[4096], init=init)))
     lines = [j[2] for j in jobs]
-    ia = tools.impl(lines)
-    ma = tools.model(lines)
+    # neighbouring jobs have similar cost (the large members sit together): deal them out over the
+    # parallel shards instead of handing each shard one contiguous block
+    order = [i for r in range(vlib.NCPU) for i in range(r, len(lines), vlib.NCPU)]
+    spread = [lines[i] for i in order]
+    ia_s, ma_s = tools.impl(spread), tools.model(spread)
+    ia, ma = [None] * len(lines), [None] * len(lines)
+    for pos, i in enumerate(order):
+        ia[i], ma[i] = ia_s[pos], ma_s[pos]
     nbad, corr = 0, []
     for l, a, m in zip(lines, ia, ma):
         if canon(a) != m:
